@@ -23,6 +23,10 @@ CHECKS = {
    text="TLC checks the context/decoration machine of Issues.tla along HedValidator.validate (SuffixOnce, FilterOnlyErrors, PhaseGate; warnings on/off) and shows the re-decorating call path (code as found) violates SuffixOnce; issue lists recorded from the string (caller's handler with the string in context, and default handler), sidecar and table entry points, each run with warnings on and off, shuffled through sort_issues and exported through replace_tag_references, are validated clause by clause by TLC (fields, offsets inside text and tag span, offsets select the quoted fragment, suffix exactly once, errors-only = error subset, stable sort order, codes unchanged by export): 600 runs quick, 6000 thorough",
    note="texts limited to Latin-1 (TLC strings); tag span = any occurrence of the source tag's spelling in the validated text; dataset entry point exercised in C16",
    technique="TLA+ spec + TLC model checking; TLC trace validation of recorded issue lists"),
+ "C03": dict(
+   text="TLC checks SchemaTree.tla in model mode (left-to-right walk == declarative longest-prefix resolution; every suffix form of every node resolves to it with or without an extension; long/short forms mutually inverse) for ALL labelled trees up to 3 (quick) / 4 (thorough) nodes and all spellings of <= 3 terms; in trace mode the real tree of each bundled schema (independent XML reader) is a TLC constant: TLC first verifies the suffix-form table against the tree, then validates every lookup the real code answered (existence, node, remainder kept verbatim, short/long/base forms with namespace, long(short)/short(long)/idempotence, bulk df conversion) for every tag x suffix spelling x case x remainder x namespace (thorough: all ~10^5 per schema family; quick: rotating hashed sample of ~25k)",
+   note="terms split at '/' and case-folded by the harness; generated (non-bundled) schemas are covered by the model-mode run only",
+   technique="TLA+ spec + TLC model checking; TLC trace validation at vocabulary scale"),
 }
 ALL = ["C%02d" % i for i in range(1, 21)]
 m = {
